@@ -302,11 +302,23 @@ func (self valSorter) Len() int {
 }
 
 func (self valSorter) Less(i, j int) bool {
+	if self[i].Kind() == reflect.Interface && self[j].Kind() == reflect.Interface {
+		// keys of a map[interface{}]... arrive wrapped in their interface
+		return valSorter{self[i].Elem(), self[j].Elem()}.Less(0, 1)
+	}
 	switch self[i].Type().Kind() {
 	case reflect.String:
 		return strings.Compare(self[i].String(), self[j].String()) < 0
 	case reflect.Int:
 		return self[i].Int() < self[j].Int()
+	case reflect.Int8, reflect.Int16, reflect.Int32, reflect.Int64:
+		return self[i].Int() < self[j].Int()
+	case reflect.Uint, reflect.Uint8, reflect.Uint16, reflect.Uint32, reflect.Uint64:
+		return self[i].Uint() < self[j].Uint()
+	case reflect.Float32, reflect.Float64:
+		return self[i].Float() < self[j].Float()
+	case reflect.Bool:
+		return !self[i].Bool() && self[j].Bool()
 	}
 	if i1, ok := self[i].Interface().(fmt.Stringer); ok {
 		i2 := self[j].Interface().(fmt.Stringer)
@@ -333,9 +345,11 @@ func (self Reflect) listMap(v reflect.Value) node.Node {
 			if r.New {
 				item = self.create(e, nil)
 				keyVal := reflect.ValueOf(key[0].Value())
+				keyVal = mapKeyValue(v, keyVal)
 				v.SetMapIndex(keyVal, item)
 			} else if key != nil {
 				keyVal := reflect.ValueOf(key[0].Value())
+				keyVal = mapKeyValue(v, keyVal)
 				if r.Delete {
 					v.SetMapIndex(keyVal, reflect.ValueOf(nil))
 					return nil, nil, nil
@@ -363,6 +377,15 @@ func (self Reflect) listMap(v reflect.Value) node.Node {
 			return nil, nil, nil
 		},
 	}
+}
+
+// mapKeyValue is the key in the Go type of the map's keys (a YANG int32 is a Go int, the
+// map may well be keyed by int32)
+func mapKeyValue(m reflect.Value, keyVal reflect.Value) reflect.Value {
+	if kt := m.Type().Key(); keyVal.Type() != kt && kt.Kind() != reflect.Interface && keyVal.CanConvert(kt) {
+		return keyVal.Convert(kt)
+	}
+	return keyVal
 }
 
 type OnListValueChange func(update reflect.Value)
